@@ -21,7 +21,7 @@ def gen_parent_resolution(repo):
 
 
 PLAN = dict(
-    id="C06", level="other", explanation="SpanStack (the per-thread entered-span stack of the registry) is checked against an executable spec model for every history of up to 4 enter/exit operations over 3 ids: push/pop return values, the exact stack contents (pop removes the LAST matching entry, others keep their order), current() = most recently entered and not yet exited, iteration newest-first without duplicates. Scope / SpanRef::parent / Context::span / from_root / event_span / lookup_current are checked over a stub LookupSpan collector with a symbolic 4-span table (every acyclic parent relation, arbitrary per-span filter bits, arbitrary filter mask): the scope is exactly the chain of accepted ancestors leaf to root, from_root its reverse, parent the nearest accepted ancestor, contextual events take the collector's current span and explicit parent / explicit root override it. All bounded (stated); the registry glue is assumed.",
+    id="C06", api_files=['tracing-subscriber/src/registry/stack.rs', 'tracing-subscriber/src/subscribe/context.rs', 'tracing-subscriber/src/registry/mod.rs'], level="other", explanation="SpanStack (the per-thread entered-span stack of the registry) is checked against an executable spec model for every history of up to 4 enter/exit operations over 3 ids: push/pop return values, the exact stack contents (pop removes the LAST matching entry, others keep their order), current() = most recently entered and not yet exited, iteration newest-first without duplicates. Scope / SpanRef::parent / Context::span / from_root / event_span / lookup_current are checked over a stub LookupSpan collector with a symbolic 4-span table (every acyclic parent relation, arbitrary per-span filter bits, arbitrary filter mask): the scope is exactly the chain of accepted ancestors leaf to root, from_root its reverse, parent the nearest accepted ancestor, contextual events take the collector's current span and explicit parent / explicit root override it. All bounded (stated); the registry glue is assumed.",
     functions_under_contract=['tracing-subscriber/src/registry/stack.rs: SpanStack::{push,pop,iter,current}', 'registry/sharded.rs: Registry::new_span - the parent-resolution statement, extracted mechanically on every run (root / contextual / explicit parent, one reference taken on the chosen parent)', 'registry/mod.rs: Iterator for Scope, Scope::from_root, SpanRef::{parent,scope,try_with_filter}', 'subscribe/context.rs: Context::{span,lookup_current,event_span,with_filter}'],
     trusted_base=["Kani 0.68 / CBMC 6.11 / CaDiCaL; Kani's std build (nightly-2026-08-21), not the repo toolchain's", 'core::fmt::Formatter::pad stubbed to Ok(()) with -Z stubbing (panic-message formatting on infeasible error branches; no harness that uses it reads formatted text)', 'cfg(kani) thread_local! shim and once_cell::sync::Lazy contract stub (see overlay_additions)'],
     assumptions=["Registry::{enter,exit,current_span,new_span} glue sits on thread_local::ThreadLocal and the sharded_slab pool (out of Kani's reach): that the stack is per thread and that span data stays readable while a descendant lives is NOT decided", "the stub root's span table stands for DataInner {parent, filter_map}"],
